@@ -146,7 +146,7 @@ def showON : Option Nat → String
 def bitsOf (s : String) : List Bool := s.toList.map (· == '1')
 def digitsOf (s : String) : List Nat := s.toList.map fun c => c.toNat - 48
 
-def mkDfa (parts : List String) : Option AnyAut :=
+def mkDfaTable (parts : List String) : Option TableDfa :=
   match parts with
   | [n, start, cls, delta, m, c, w] =>
     let classes : List UInt8 := (splitOn cls ".").filterMap fun h => (bytesOfHex h).bind List.head?
@@ -156,8 +156,11 @@ def mkDfa (parts : List String) : Option AnyAut :=
     let t : TableDfa := { nstates := n.toNat!, start := start.toNat!,
                           cls := fun b => match classes.idxOf? b with | some i => i + 1 | none => 0,
                           delta := rows, matching := bitsOf m, canM := bitsOf c, willM := bitsOf w }
-    some ⟨Nat, t.aut, toString⟩
+    some t
   | _ => none
+
+def mkDfa (parts : List String) : Option AnyAut :=
+  (mkDfaTable parts).map fun t => ⟨Nat, t.aut, toString⟩
 
 /-- split "a,b" at the top-level comma -/
 def splitTop (cs : List Char) : Option (List Char × List Char) :=
@@ -188,6 +191,16 @@ partial def parseAut (full : List (List (Nat × Nat))) (s : String) : Option Any
     match (s.drop 4).toString.splitOn ":" with
     | [n, start, cls, delta, m, _, _] =>
       mkDfa [n, start, cls, delta, m, String.ofList (List.replicate n.toNat! '1'), String.ofList (List.replicate n.toNat! '0')]
+    | _ => none
+  else if s.startsWith "dfe:" then
+    -- a table automaton that overrides `accept_eof`: last part = per state a target digit or '-'
+    match (s.drop 4).toString.splitOn ":" with
+    | [n, start, cls, delta, m, c, w, e] =>
+      match mkDfaTable [n, start, cls, delta, m, c, w] with
+      | some t =>
+        let eofs : List (Option Nat) := e.toList.map fun ch => if ch == '-' then none else some (ch.toNat - 48)
+        some ⟨Nat, { t.aut with acceptEof := fun x => (eofs.getD x none) }, toString⟩
+      | none => none
     | _ => none
   else if s.startsWith "lev:" then
     match (s.drop 4).toString.splitOn ":" with
